@@ -792,68 +792,98 @@ func rangeSelectionInclusive(r *core.Report, rule string) {
 	if f == nil {
 		return
 	}
-	info := f.Pkg.TypesInfo
-	g := p.Graph(f)
 	start, end := f.ParamByName("startSlot"), f.ParamByName("endSlot")
 	if start == nil || end == nil {
 		r.Undecided(rule, f.Key+"#range-params", posP(r, f.Pos()), "parameters startSlot / endSlot not found")
 		return
 	}
-	ts, te := taintFrom(f, start), taintFrom(f, end)
-	ts[start], te[end] = true, true
-	// the append that keeps an epoch
-	n := 0
-	for _, node := range stmtNodes(g) {
-		as, ok := node.Ast.(*ast.AssignStmt)
-		if !ok || len(as.Rhs) != 1 {
-			continue
+	var analyze func(fn *core.Func, bounds map[types.Object]bool, depth int) int
+	analyze = func(fn *core.Func, bounds map[types.Object]bool, depth int) int {
+		info := fn.Pkg.TypesInfo
+		g := p.Graph(fn)
+		var seeds []types.Object
+		for o := range bounds {
+			seeds = append(seeds, o)
 		}
-		c, ok := core.Unparen(as.Rhs[0]).(*ast.CallExpr)
-		if !ok || core.BuiltinName(info, c) != "append" || len(c.Args) != 2 {
-			continue
+		tb := taintFrom(fn, seeds...)
+		for o := range bounds {
+			tb[o] = true
 		}
-		if !strings.Contains(core.NamedTypeName(info.TypeOf(c.Args[1])), "Epoch") {
-			continue
-		}
-		n++
-		nb := 0
-		bad := ""
-		for _, fc := range g.FactsAt(node) {
-			be, ok := core.Unparen(fc.Expr).(*ast.BinaryExpr)
-			if !ok || fc.Tag != nil {
+		n := 0
+		for _, node := range stmtNodes(g) {
+			as, ok := node.Ast.(*ast.AssignStmt)
+			if !ok || len(as.Rhs) != 1 {
 				continue
 			}
-			var boundSide string
-			for side, e := range map[string]ast.Expr{"X": be.X, "Y": be.Y} {
-				if mentionsAny(info, e, ts, false) || mentionsAny(info, e, te, false) {
-					boundSide = side
+			c, ok := core.Unparen(as.Rhs[0]).(*ast.CallExpr)
+			if !ok || core.BuiltinName(info, c) != "append" || len(c.Args) != 2 {
+				continue
+			}
+			if !strings.Contains(core.NamedTypeName(info.TypeOf(c.Args[1])), "Epoch") {
+				continue
+			}
+			nb := 0
+			bad := ""
+			for _, fc := range g.FactsAt(node) {
+				be, ok := core.Unparen(fc.Expr).(*ast.BinaryExpr)
+				if !ok || fc.Tag != nil {
+					continue
+				}
+				if !mentionsAny(info, be.X, tb, false) && !mentionsAny(info, be.Y, tb, false) {
+					continue
+				}
+				op := be.Op
+				if !fc.Truth {
+					op = map[token.Token]token.Token{token.LSS: token.GEQ, token.GEQ: token.LSS, token.GTR: token.LEQ, token.LEQ: token.GTR, token.EQL: token.NEQ, token.NEQ: token.EQL}[be.Op]
+				}
+				switch op {
+				case token.LEQ, token.GEQ:
+					nb++
+				case token.LSS, token.GTR:
+					bad = core.ExprStr(fc.Expr)
 				}
 			}
-			if boundSide == "" {
+			if nb == 0 && bad == "" {
+				continue // an append that is not selected by the bounds
+			}
+			n++
+			k := fmt.Sprintf("%s#selection-includes-both-bounds@%d", fn.Key, n)
+			switch {
+			case bad != "":
+				r.Violation(rule, k, pos(r, node.Ast), "an epoch is kept only under the strict comparison ["+bad+"] with a bound of the range: the epoch whose boundary slot equals that bound is dropped and the transactions of that slot are missing from the answer")
+			case nb >= 2:
+				r.OK(rule, k, pos(r, node.Ast), "both bounds of the range are compared inclusively")
+			default:
+				r.Undecided(rule, k, pos(r, node.Ast), "only one bound of the range is compared where an epoch is selected")
+			}
+		}
+		if n > 0 || depth >= 2 {
+			return n
+		}
+		// the selection may live in a helper that receives values derived from the bounds
+		for _, cs := range p.Calls(fn) {
+			var callee *core.Func
+			if len(cs.Targets) == 1 {
+				callee = cs.Targets[0]
+			}
+			if callee == nil || callee.Body == nil || cs.In != fn {
 				continue
 			}
-			op := be.Op
-			if !fc.Truth {
-				op = map[token.Token]token.Token{token.LSS: token.GEQ, token.GEQ: token.LSS, token.GTR: token.LEQ, token.LEQ: token.GTR, token.EQL: token.NEQ, token.NEQ: token.EQL}[be.Op]
+			sub := map[types.Object]bool{}
+			for ai, a := range cs.Call.Args {
+				if mentionsAny(info, a, tb, false) {
+					if po := callee.ParamObj(ai); po != nil {
+						sub[po] = true
+					}
+				}
 			}
-			switch op {
-			case token.LEQ, token.GEQ:
-				nb++
-			case token.LSS, token.GTR:
-				bad = core.ExprStr(fc.Expr)
+			if len(sub) >= 2 {
+				n += analyze(callee, sub, depth+1)
 			}
 		}
-		k := fmt.Sprintf("%s#selection-includes-both-bounds@%d", f.Key, n)
-		switch {
-		case bad != "":
-			r.Violation(rule, k, pos(r, node.Ast), "an epoch is kept only under the strict comparison ["+bad+"] with a bound of the range: the epoch whose boundary slot equals that bound is dropped and the transactions of that slot are missing from the answer")
-		case nb >= 2:
-			r.OK(rule, k, pos(r, node.Ast), "both bounds of the range are compared inclusively")
-		default:
-			r.Undecided(rule, k, pos(r, node.Ast), "the comparisons that select an epoch for the slot range were not recognised")
-		}
+		return n
 	}
-	if n == 0 {
+	if analyze(f, map[types.Object]bool{start: true, end: true}, 0) == 0 {
 		r.Undecided(rule, f.Key+"#selection", posP(r, f.Pos()), "no append of a selected epoch found")
 	}
 }
